@@ -6,6 +6,7 @@ package c15
 // low-level client socket helpers.
 
 import (
+	"bytes"
 	"encoding/json"
 	"errors"
 	"fmt"
@@ -82,6 +83,51 @@ var (
 
 func nanos() int64 { return int64(time.Since(fenceT0)) }
 
+// Per-agent bookkeeping of AddJobToQueue calls. The hook point has no arguments, but it
+// is called from (*Agent).AddJobToQueue, whose receiver the runtime prints as the first
+// argument of that frame; the callback reads it from its own stack trace. Together with
+// the number of tasks each reference agent has been handed this tells, per agent, whether
+// the (unlocked, C04-owned) queue delivered every job exactly once.
+var (
+	addsMu     sync.Mutex
+	addsByPtr  = map[uint64]int64{}
+	addsNoAddr atomic.Int64
+)
+
+func countAdd() {
+	var buf [2048]byte
+	n := runtime.Stack(buf[:], false)
+	const mark = "AddJobToQueue(0x"
+	i := bytes.Index(buf[:n], []byte(mark))
+	if i < 0 {
+		addsNoAddr.Add(1)
+		return
+	}
+	var p uint64
+	for _, ch := range buf[i+len(mark) : n] {
+		var d byte
+		switch {
+		case ch >= '0' && ch <= '9':
+			d = ch - '0'
+		case ch >= 'a' && ch <= 'f':
+			d = ch - 'a' + 10
+		default:
+			addsMu.Lock()
+			addsByPtr[p]++
+			addsMu.Unlock()
+			return
+		}
+		p = p<<4 | uint64(d)
+	}
+	addsNoAddr.Add(1)
+}
+
+func addsOf(ptr uint64) int64 {
+	addsMu.Lock()
+	defer addsMu.Unlock()
+	return addsByPtr[ptr]
+}
+
 func queueFence() {
 	fenceOnce.Do(func() {
 		if os.Getenv("C15_NO_QUEUE_FENCE") != "" {
@@ -90,6 +136,7 @@ func queueFence() {
 		lastGet.Store(-1 << 40)
 		lastAdd.Store(-1 << 40)
 		verifhook.Set("queue.add", func() {
+			countAdd()
 			for {
 				now := nanos()
 				if now-lastGet.Load() < 300_000 {
